@@ -126,6 +126,11 @@ Definition msess t31 t15 traw tbl pieces P bs :=
   let o := list_oracle (map (fun ab : N * N => (N.to_nat (fst ab), N.to_nat (snd ab))) tbl) in
   (session_records tst (tab_init t31 t15 traw) tab_step t_eof (fun _ => []) o 5 [1] pieces P (mkConn bs false),
    session_conn tst (tab_init t31 t15 traw) tab_step t_eof (fun _ => []) o P (mkConn bs false)).
+(* the segmentation oracle computed from the scripted segment boundaries (used when the exchange starts on an empty buffer) *)
+Definition msess_cuts t31 t15 traw (ends : list N) pieces P bs :=
+  let o := cuts_oracle (List.length bs) (map N.to_nat ends) in
+  (session_records tst (tab_init t31 t15 traw) tab_step t_eof (fun _ => []) o 5 [1] pieces P (mkConn bs false),
+   session_conn tst (tab_init t31 t15 traw) tab_step t_eof (fun _ => []) o P (mkConn bs false)).
 Definition opt_eqb (a b : option N) := match a, b with Some x, Some y => x =? y | None, None => true | _, _ => false end.
 Definition is_req (x : wrec) := match w_type x with TRequest => true | _ => false end.
 Definition csess (x : list wrec * option conn) (reqblock : list N) (resp : option (list N)) (after : option N) : bool :=
@@ -152,6 +157,10 @@ def coq_item(v):
     p = dict(e['m']['params'])
     pieces = '[' + '; '.join(c08.coq_bytes(bytes.fromhex(h)) for h in ex['written_pieces']) + ']'
     run = 'msess %s [%s] %s %s %s' % (tabs, tbl, pieces, c08.coq_params(p), c08.coq_bytes(v['stream']))
+    if v['leftover'] == 0:
+        # nothing was buffered when this exchange began: the reads are determined by the scripted segments alone
+        ends = [c for c in e['cuts'] if 0 < c < total] + [total]
+        run = 'msess_cuts %s [%s] %s %s %s' % (tabs, '; '.join(str(x) for x in ends), pieces, c08.coq_params(p), c08.coq_bytes(v['stream']))
     reqs = [x for x in v['records'] if x['type'] == 'request']
     resps = [x for x in v['records'] if x['type'] != 'request']
     if len(reqs) != 1 or len(resps) > 1:
